@@ -465,7 +465,10 @@ def insertInDomain (cs : List Cls) (ss : List Stmt) (s : Stmt) : Bool :=
         | some c =>
           (match ns with
            | some (_ :: _) => true
-           | _ => c.attrs.length ≤ vs.length)
+           | _ => c.attrs.length ≤ vs.length
+               -- a SHORT positional row: the attributes left out are referential ones (they stay unset; any other
+               -- attribute would take a default drawn from the id generator / the type, property C19)
+               || (c.attrs.drop vs.length).all (fun p => (referential (popAssocs ss) k).contains p.1))
           && rowTyped c.attrs (mkRow c.attrs ns vs)
         | none =>
           -- inferred class: every INSERT of the kind infers the same class
